@@ -1,7 +1,7 @@
 """Methods of built-in container values and of repository classes."""
 import z3
 from .types import (NArr, SList, SDict, SSet, Rec, Opt, CList, FuncRef, ModRef, Unsupported, is_sym, I, B, S,
-                    slist_get, slist_set, slist_append, slist_slice, to_slist, key_term, TInt)
+                    slist_get, slist_set, slist_append, slist_slice, to_slist, key_term, key_sort_of, TInt)
 from . import ops
 from .ops import b_and, b_or, b_not, values_equal, truth
 from . import source
@@ -199,7 +199,22 @@ def graph_method(eng, bm, obj, name, args, kwargs, node):
             # the call site must establish that both endpoints exist (obligation)
             eng.oblige("model", f"add_edge endpoints exist@{eng.site(node)}", z3.Select(nodes.dom, key_term(nodes.k, x)), node)
         new_dom = z3.Store(z3.Store(adj.dom, key_term(adj.k, (a, b)), True), key_term(adj.k, (b, a)), True)
-        _wb(eng, bm, obj.with_field("adj", SSet(adj.k, new_dom)))
+        new_obj = obj.with_field("adj", SSet(adj.k, new_dom))
+        if "eattr" in obj.fields:
+            # a new edge starts with an empty attribute dictionary; an existing edge keeps its attributes
+            from .engine import edge_key
+            ea = obj.fields["eattr"]
+            ek = key_term(ea.k, edge_key(a, b))
+            had = has(a, b)
+            inner_t = ea.v
+            if type(inner_t).__name__ != "TDict":
+                raise Unsupported("edge attributes must be declared as a dict per edge")
+            iks = key_sort_of(inner_t.k)
+            cur = [c[ek] for c in ea.comps]
+            fresh_inner = [z3.K(iks, False)] + cur[1:]
+            new_comps = [z3.Store(c, ek, z3.If(had, old, new)) for c, old, new in zip(ea.comps, cur, fresh_inner)]
+            new_obj = new_obj.with_field("eattr", type(ea)(ea.k, ea.v, z3.Store(ea.dom, ek, True), new_comps))
+        _wb(eng, bm, new_obj)
         return None
     raise Unsupported(f"nx.Graph.{name}")
 
